@@ -38,38 +38,10 @@ func runC09(c *Ctx) {
 
 	funcs := c.clientFuncs()
 	// R1
-	nSend := 0
 	for _, fn := range funcs {
 		r.Funcs[c.FuncKey(fn)] = true
-		for _, op := range ChanOps(fn) {
-			r.Sites++
-			if op.Kind != "send" || !c.ChanMayBe(op.Chan, a.Out) {
-				continue
-			}
-			nSend++
-			ok := fn == a.Raw && !op.InSelect
-			why := "plain send in " + c.FuncKey(fn)
-			if fn != a.Raw {
-				why = "send on the outbound queue outside Raw's own body (in " + c.FuncKey(fn) + ")"
-			} else if op.InSelect {
-				why = "send inside a select: a line may take another path (dropped or re-ordered)"
-			}
-			r.Add("R1", "send-out:"+c.FuncKey(fn), c.InstrPos(op.In), c.FuncKey(fn), "outbound-queue send is Raw's own blocking send", ok, why)
-		}
 	}
-	r.Exactly("R1", "send sites on the outbound queue", nSend, 1)
-	// Raw must send on every path
-	if a.Raw != nil {
-		ok, bad := AllPathsFromEntryPass(a.Raw, func(in ssa.Instruction) bool {
-			s, ok := in.(*ssa.Send)
-			return ok && c.ChanMayBe(s.Chan, a.Out)
-		})
-		why := "every path through Raw enqueues"
-		if !ok {
-			why = "Raw can return at " + c.InstrPos(bad) + " without enqueueing the line"
-		}
-		r.Add("R1", "raw-always-sends", c.Pos(a.Raw.Pos()), c.FuncKey(a.Raw), "Raw enqueues the line on every path", ok, why)
-	}
+	c.rawSenderRule("R1")
 
 	// R1 (b): byte identity through Raw - the enqueued value is Raw's parameter cut at CR/LF only (shared with C08.R1)
 	c.enqueueIdentityRule("R1")
@@ -263,6 +235,8 @@ func runC09(c *Ctx) {
 
 	// R3 (c): text is never re-interpreted as a printf format on its way to the wire
 	c.formatHygieneRule("R3")
+	// R3 (d): nothing sits between the buffered writer and the socket
+	c.writerOnSocketRule("R3")
 
 	// R4
 	nSt := 0
@@ -382,8 +356,8 @@ func (c *Ctx) writerLeaf(writeFn *ssa.Function) (leaf *ssa.Function, via *ssa.Ca
 		return nil, nil
 	}
 	cal := sites[0].Call.StaticCallee()
-	if len(c.staticCallers(cal)) != 1 {
-		return nil, nil
+	if len(c.staticCallers(cal)) != 1 || addrTaken(cal) {
+		return nil, nil // the helper can be reached without passing through writeFn
 	}
 	// the helper's string parameter is writeFn's own line parameter
 	okArg := false
@@ -396,6 +370,135 @@ func (c *Ctx) writerLeaf(writeFn *ssa.Function) (leaf *ssa.Function, via *ssa.Ca
 		return nil, nil
 	}
 	return cal, sites[0]
+}
+
+// rawSenderRule: the only sender on the outbound queue is Raw's own body, by a
+// plain blocking send, on every path.
+func (c *Ctx) rawSenderRule(rule string) {
+	r, a := c.R, c.A
+	funcs := c.clientFuncs()
+	// R1
+	nSend := 0
+	for _, fn := range funcs {
+		for _, op := range ChanOps(fn) {
+			r.Sites++
+			if op.Kind != "send" || !c.ChanMayBe(op.Chan, a.Out) {
+				continue
+			}
+			nSend++
+			ok := fn == a.Raw && !op.InSelect
+			why := "plain send in " + c.FuncKey(fn)
+			if fn != a.Raw {
+				why = "send on the outbound queue outside Raw's own body (in " + c.FuncKey(fn) + ")"
+			} else if op.InSelect {
+				why = "send inside a select: a line may take another path (dropped or re-ordered)"
+			}
+			r.Add(rule, "send-out:"+c.FuncKey(fn), c.InstrPos(op.In), c.FuncKey(fn), "outbound-queue send is Raw's own blocking send", ok, why)
+		}
+	}
+	r.Exactly(rule, "send sites on the outbound queue", nSend, 1)
+	// Raw must send on every path
+	if a.Raw != nil {
+		ok, bad := AllPathsFromEntryPass(a.Raw, func(in ssa.Instruction) bool {
+			s, ok := in.(*ssa.Send)
+			return ok && c.ChanMayBe(s.Chan, a.Out)
+		})
+		why := "every path through Raw enqueues"
+		if !ok {
+			why = "Raw can return at " + c.InstrPos(bad) + " without enqueueing the line"
+		}
+		r.Add(rule, "raw-always-sends", c.Pos(a.Raw.Pos()), c.FuncKey(a.Raw), "Raw enqueues the line on every path", ok, why)
+	}
+
+}
+
+// writerOnSocketRule: the connection's buffered reader/writer are built
+// directly on the socket - no wrapper type sits between bufio and the wire.
+func (c *Ctx) writerOnSocketRule(rule string) {
+	r, a := c.R, c.A
+	n := 0
+	for _, fn := range c.clientFuncs() {
+		funcInstrs(fn, func(in ssa.Instruction) {
+			call, ok := in.(*ssa.Call)
+			if !ok {
+				return
+			}
+			switch calleeName(&call.Call) {
+			case "bufio.NewReader", "bufio.NewWriter", "bufio.NewReaderSize", "bufio.NewWriterSize":
+			default:
+				return
+			}
+			// only constructions that end up in the connection's I/O field
+			feeds := false
+			var walk func(v ssa.Value, d int)
+			walk = func(v ssa.Value, d int) {
+				if d > 4 || v.Referrers() == nil {
+					return
+				}
+				for _, ref := range *v.Referrers() {
+					switch t := ref.(type) {
+					case *ssa.Store:
+						if fv, _ := fieldOf(t.Addr); fv == a.IO {
+							feeds = true
+						}
+					case *ssa.Call:
+						if calleeName(&t.Call) == "bufio.NewReadWriter" {
+							walk(t, d+1)
+						}
+					case *ssa.Phi, *ssa.ChangeType, *ssa.MakeInterface:
+						walk(t.(ssa.Value), d+1)
+					}
+				}
+			}
+			walk(call, 0)
+			if !feeds {
+				return
+			}
+			n++
+			okS, why := true, "built directly on the socket"
+			for _, o := range c.Origins(call.Call.Args[0]) {
+				if fv, _ := loadedField(o); fv == a.Sock {
+					continue
+				}
+				if c.derivesFromField(o, a.Sock) {
+					continue
+				}
+				okS, why = false, "built on "+o.String()+" ("+shortType(o.Type())+"), not on the socket itself: whatever sits in between can change or reframe the bytes"
+			}
+			r.Add(rule, "io-on-socket:"+c.FuncKey(fn)+":"+calleeShort(&call.Call), c.InstrPos(call), c.FuncKey(fn), "the buffered reader/writer of the connection wrap the socket itself", okS, why)
+		})
+	}
+	r.Floor(rule, "bufio constructions feeding the connection's I/O field", n, 2)
+}
+
+// lockReleasedRule: every acquisition of a lock in funcs is released on every
+// path to a return - by an Unlock on the path or by a deferred Unlock that is
+// registered on the path (a lock leaked on a rare path stalls every later
+// caller for good).
+func (c *Ctx) lockReleasedRule(rule string, funcs []*ssa.Function) {
+	r := c.R
+	n := 0
+	for _, fn := range funcs {
+		cnt := map[string]int{}
+		funcInstrs(fn, func(in ssa.Instruction) {
+			op, ok := c.lockOpOf(in)
+			if !ok || op.Deferred || (op.Method != "Lock" && op.Method != "RLock") {
+				return
+			}
+			n++
+			cnt[op.Obj]++
+			okAll, bad := AllPathsPass(in, false, func(x ssa.Instruction) bool {
+				o2, ok := c.lockOpOf(x)
+				return ok && o2.Obj == op.Obj && (o2.Method == "Unlock" || o2.Method == "RUnlock")
+			})
+			why := "an Unlock (or a deferred one) lies on every path to a return"
+			if !okAll {
+				why = "the return at " + c.InstrPos(bad) + " is reachable with " + op.Obj + " still held"
+			}
+			r.Add(rule, fmt.Sprintf("released:%s:%s#%d", c.FuncKey(fn), op.Obj, cnt[op.Obj]), c.InstrPos(in), c.FuncKey(fn), "the lock is released on every path", okAll, why)
+		})
+	}
+	r.Floor(rule, "lock acquisitions checked for release", n, 10)
 }
 
 // enqueueIdentityRule: the value sent on the outbound queue is Raw's own
@@ -649,6 +752,7 @@ func runC14(c *Ctx) {
 	ms := c.SSA.MethodSets.MethodSet(types.NewPointer(trk))
 	nExp := 0
 	trackerAcq := c.Acquires(funcs)
+	c.lockReleasedRule("R1", funcs)
 	fc := c.newFresh()
 	for i := 0; i < ms.Len(); i++ {
 		sel := ms.At(i)
